@@ -86,6 +86,13 @@ Theorem C19_sampler_in_grid : forall pofx x u y, gen_ok pofx x ->
   (nth 1 x 0 <= y <= qlast x)%Q.
 Proof. exact sampler_in_grid. Qed.
 
+(* the requested number of values is returned, each one the sampler's value for its deviate
+   (gen_sample is the whole-call model the per-case correspondence evaluates) *)
+Theorem C19_count_returned : forall pofx x us, gen_ok pofx x ->
+  exists ys, gen_sample false pofx x us = Ok ys /\ length ys = length us
+             /\ Forall2 (fun u y => sampler pofx x u = Ok y) us ys.
+Proof. exact gen_sample_count. Qed.
+
 (* ================================================================ Cholesky sampler *)
 
 (* sample j, component i  =  mean_i + sum_k M_ik * r_(k*n+j)  for the deviates r it drew *)
